@@ -491,4 +491,83 @@ theorem retSpec_fuel (conv : U32) (f1 f2 : Nat) (d : Bytes)
               · unfold IKCP_OVERHEAD at *; omega
               · unfold IKCP_OVERHEAD at *; omega
 
+/-- the fuel of the model's parse loop is an artefact: one unit per 24 bytes is always enough, the
+loop ends because the data runs out -/
+theorem inputLoop_fuel (regular : Bool) (f1 f2 : Nat) (d : Bytes) (st : InLoop)
+    (h1 : d.length / IKCP_OVERHEAD < f1) (h2 : d.length / IKCP_OVERHEAD < f2) :
+    inputLoop regular f1 d st = inputLoop regular f2 d st := by
+  induction f1 generalizing f2 d st with
+  | zero => exact absurd h1 (Nat.not_lt_zero _)
+  | succ f1 ih =>
+    cases f2 with
+    | zero => exact absurd h2 (Nat.not_lt_zero _)
+    | succ f2 =>
+      rw [inputLoop_succ, inputLoop_succ]
+      split
+      · rfl
+      · split
+        · rfl
+        · split
+          · rfl
+          · split
+            · rfl
+            · split
+              · rfl
+              · rename_i hlen _ _ _ _
+                have hl : (nextSeg d).length ≤ d.length - IKCP_OVERHEAD := by
+                  unfold nextSeg; simp only [List.length_drop]; omega
+                have : (nextSeg d).length / IKCP_OVERHEAD ≤ (d.length - IKCP_OVERHEAD) / IKCP_OVERHEAD :=
+                  Nat.div_le_div_right hl
+                apply ih
+                · unfold IKCP_OVERHEAD at *; omega
+                · unfold IKCP_OVERHEAD at *; omega
+
+/-- a datagram whose FIRST header is rejected changes nothing and emits nothing -/
+theorem input_reject_first (k : Kcp) (d : Bytes) (regular ackNoDelay : Bool) (now : U32)
+    (h : d.length < IKCP_OVERHEAD ∨ rd32 d 0 ≠ k.conv ∨ badLen d ∨ badCmd d) :
+    (input k d regular ackNoDelay now).k = k ∧ (input k d regular ackNoDelay now).outs = [] ∧
+    (input k d regular ackNoDelay now).ret < 0 := by
+  unfold input
+  by_cases h1 : d.length < IKCP_OVERHEAD
+  · rw [if_pos h1]; exact ⟨rfl, rfl, by show (-1 : Int) < 0; decide⟩
+  · rw [if_neg h1]
+    simp only []
+    rw [inputLoop_succ, if_neg h1]
+    by_cases h2 : rd32 d 0 ≠ k.conv
+    · rw [if_pos h2]; simp
+    · rw [if_neg h2]
+      by_cases h3 : badLen d
+      · rw [if_pos h3]; simp
+      · rw [if_neg h3]
+        by_cases h4 : badCmd d
+        · rw [if_pos h4]; simp
+        · exfalso
+          rcases h with h | h | h | h
+          · exact h1 h
+          · exact h2 h
+          · exact h3 h
+          · exact h4 h
+
+/-- a rejected datagram (negative return) never makes the core transmit -/
+theorem input_neg_outs (k : Kcp) (d : Bytes) (regular ackNoDelay : Bool) (now : U32)
+    (h : (input k d regular ackNoDelay now).ret < 0) : (input k d regular ackNoDelay now).outs = [] := by
+  revert h
+  unfold input
+  split
+  · intro _; rfl
+  · simp only []
+    generalize inputLoop regular (d.length / IKCP_OVERHEAD + 1) d { k := k } = st
+    split
+    · intro _; rfl
+    · split
+      · intro _; rfl
+      · generalize cwndOnAck _ k.snd_una = k2
+        split
+        · intro h; exact absurd h (by show ¬ (0 : Int) < 0; decide)
+        · split
+          · intro h; exact absurd h (by show ¬ (0 : Int) < 0; decide)
+          · split
+            · intro h; exact absurd h (by show ¬ (0 : Int) < 0; decide)
+            · intro _; rfl
+
 end KcpVerif.Total
